@@ -24,7 +24,7 @@ def run_wrap(u):
     prover = Prover(t_inproc_ms=10000, use_external=False)
     def run(ctx):
         dom = Real(); I = new_interp(dom, ctx); I.concrete_env = True
-        I.loop_bound = W + 4
+        I.loop_bound = 2 * W + 8
         sim = Sim(I)
         for i in range(N): sim.add(m=1.0)
         box = [dom.fresh('L' + a) for a in AX]
@@ -35,7 +35,7 @@ def run_wrap(u):
             for c in ('x', 'y', 'z', 'vx', 'vy', 'vz'):
                 V[(i, c)] = dom.fresh('%s%d' % (c, i)); sim.particle(i).set(c, V[(i, c)])
             for k, a in enumerate(AX):
-                lim = (W + z3.RealVal('1/2')) * box[k] if not (kind == 'SHEAR' and a == 'y') else z3.RealVal('1/2') * box[k]
+                lim = (W + z3.RealVal('1/2')) * box[k]
                 ctx.assume(z3.And(V[(i, a)] <= lim, V[(i, a)] >= -lim))
         OM = tt = None
         if kind == 'SHEAR':
@@ -206,7 +206,7 @@ def main():
     rep = run_units(us, worker)
     code = finish(PID, tier, rep, t0,
         bounds=dict(wraps_per_axis=W, particles='1 (wrap), 2..3 (open)', unwinding=W + 4),
-        assumptions=['box sizes > 0; positions within (W+1/2) box lengths per axis (SHEAR: |y| <= L_y/2 initially)', 'fmod as its defining relation (integer quotient, remainder with the sign of the dividend)', 'real arithmetic'],
+        assumptions=['box sizes > 0; positions within (W+1/2) box lengths per axis', 'fmod as its defining relation (integer quotient, remainder with the sign of the dividend)', 'real arithmetic'],
         outside=['the spatial tree (leaf/cell invariants, mass and centre-of-mass sums, re-insertion across root boxes): not built in this session', 'more wraps than W per axis in one call', 'SHEAR: the azimuthal offset bookkeeping y_new - y_old (fmod terms) beyond staying inside the box', 'rounding'],
         domain_note='REAL with path forking over the wrap loops')
     sys.exit(code)
